@@ -23,6 +23,10 @@ CHECKS = {}  # filled from sim/props/*.py that exist and are listed in ENABLED
 ENABLED = json.load(open(os.path.join(HERE, "bin", "enabled.json")))
 
 TEXT = {
+    "C13": ("exploration",
+            "Seeded exploration with the generator as reference model: abstract module trees (name.rs / name/mod.rs / #[path] / inline nesting / cfg_attr(path) / cfg_if! / cfg_match! / stem-directory heuristic with nested or fallback children), decoys, skip / ignore (incl. negations, non-leaf targets) / @generated markers, skip_children, stdin, a file reached twice, three root spellings; the real binary's recorded writes are compared with the model's sets E (must be formatted), X (untouched), D (don't care); fault lane: missing / ambiguous / unreadable module must be an error with no write; 3 hash seeds.",
+            "Trusts the module-resolution rules written in the generator (rustc's) and the 30-line gitignore matcher for the generated pattern vocabulary; gray zones of the property's wording go to the don't-care set or are not generated.",
+            "deterministic simulation: model-based exploration of the real binary's file-system history (incl. injected errno, hash seeds)", "s4 C13"),
     "C15": ("exploration",
             "Seeded exploration over worlds of 1-5 inputs (sibling and nested directories with their own configs and ignore lists, unparsable and already-formatted inputs): every permutation (n<=3; 6 sampled otherwise) as one real invocation, the n single-input invocations, 3 extra hash seeds, 2 other working directories / path spellings, a perturbed environment and stdin delivery; oracles: per-file result of every run equals the single-input run's, exit status is the maximum, stderr report lines are the multiset union, mutating-operation sequence independent of the hash seed.",
             "Trusts per-mode extraction of per-file results by file name; config-level `Warning:` lines are excluded from report comparison.",
